@@ -81,14 +81,15 @@ theorem C07_exit_drains (s0 : BSt) (h0 : DrainFresh s0) (ops : List Op) :
 /-- **Flushed last.** In the same situation the final state is `exitFinal` of a state `sK` in which the emptiness
     check answered yes: the failure counters are reported, then every active sink is flushed
     (`flushSinks`), then contexts and loggers are reclaimed — and after that flush the log gains nothing but sink
-    destructor events: no statement is written after the last flush. -/
+    destructor events and, when loggers are erased, the events of one more flush of every sink (the head of
+    `_cleanup_invalidated_loggers`, F33 repair): no statement is written after the last flush. -/
 theorem C07_exit_flushes_last (s0 : BSt) (h0 : DrainFresh s0) (ops : List Op) :
     let s := runOps s0 ops
     s.backendGone = false → exitEnds (runInj []) 1000 100000 { s with siteCnt := [] } →
     ∃ sK, (allEmpty sK).2 = true ∧
       (applyOp s .exit).1 = { exitFinal (runInj []) sK with backendGone := true } ∧
       ∃ d, (applyOp s .exit).1.log = d ++ (flushSinks (checkFailures (runInj []) (allEmpty sK).1)).log ∧
-        ∀ e ∈ d, ∃ k, e = Ev.sinkDtor k := by
+        ∀ e ∈ d, (∃ k, e = Ev.sinkDtor k) ∨ (∃ k, e = Ev.flushed k ∨ e = Ev.fthrow k) ∨ e = Ev.notify "n:ffail" := by
   intro s hg he
   have hs : TCInv s := TCInv_runOps s0 h0.inv ops
   have hsp : TCInv { s with siteCnt := [] } := TCInv_closed.siteCnt s [] hs
@@ -101,11 +102,24 @@ theorem C07_exit_flushes_last (s0 : BSt) (h0 : DrainFresh s0) (ops : List Op) :
   refine ⟨sK, heK, hs', ?_⟩
   rw [hs']
   obtain ⟨d, hd, hall⟩ := cleanupLoggers_dtors (runInj []) runInj_nil_quiet9
-    (cleanupContexts (flushSinks (checkFailures (runInj []) (allEmpty sK).1)))
-  refine ⟨d, ?_, hall⟩
-  show (exitFinal (runInj []) sK).log = _
-  unfold exitFinal
-  rw [hd, cleanupContexts_log]
+    (preEraseFlush (cleanupContexts (flushSinks (checkFailures (runInj []) (allEmpty sK).1))))
+  have hpre : ∃ blk, (preEraseFlush (cleanupContexts (flushSinks (checkFailures (runInj []) (allEmpty sK).1)))).log =
+      blk ++ (cleanupContexts (flushSinks (checkFailures (runInj []) (allEmpty sK).1))).log ∧
+      ∀ e ∈ blk, (∃ sid, e = Ev.flushed sid ∨ e = Ev.fthrow sid) ∨ e = Ev.notify "n:ffail" := by
+    unfold preEraseFlush
+    split
+    · obtain ⟨blk, e1, _, e3⟩ := PB.flushSinks_log (cleanupContexts (flushSinks (checkFailures (runInj []) (allEmpty sK).1)))
+      exact ⟨blk, e1, e3⟩
+    · exact ⟨[], rfl, fun _ h => by cases h⟩
+  obtain ⟨blk, hb, hblk⟩ := hpre
+  refine ⟨d ++ blk, ?_, ?_⟩
+  · show (exitFinal (runInj []) sK).log = _
+    unfold exitFinal
+    rw [hd, hb, cleanupContexts_log, List.append_assoc]
+  · intro e he
+    rcases List.mem_append.mp he with h | h
+    · exact Or.inl (hall e h)
+    · exact Or.inr (hblk e h)
 
 /-! ### progress and termination -/
 
